@@ -1,6 +1,7 @@
 import OmplModel.Proofs.Rng
 import OmplModel.Proofs.RngOracle
 import OmplModel.Proofs.RngSphere
+import OmplModel.Proofs.RngPlan
 /-!
 C20 — a fixed seed reproduces single-threaded planning bit for bit.
 
@@ -240,6 +241,99 @@ example :
       .ask (.draw (.uniformInt 0 9)) fun a => .ask (.eval 3) fun b => .ask .poll fun p =>
         .done (match a, b, p with | .drew (.int i), .val true, .stop true => i.toNat + 1 | _, _, _ => 0)
     (c.run (plannerEnv 1 1 (fun _ => true)) []).2 ≠ (c.run (plannerEnv 1 1 (fun _ => false)) []).2 := by
+  decide
+
+/-! ## a planner against the whole process: seed generator, several generators, validity callback, termination
+
+`Model/RngPlan.lean`: the questions are `alloc` (a default-constructed `RNG`), `draw k op` (on the `k`-th generator
+created), `eval x` (`isValid`), `poll` (the termination condition) and `arm b` (the caller builds a fresh condition); the
+environment `envStep` answers from the model of `RNGSeedGenerator`/`ompl::RNG`, from the callback, and from an
+evaluation-counting condition or `IterationTerminationCondition` as coded.  `program P budget hist` is
+`geometric::RRT` (set-up, `solve`/`clear` history) written as such a computation; `drv_rngplan` runs exactly
+`runS (envStep (boxOracle …)) (program …) (envInit clock seed …)` in lock-step with the real planner. -/
+
+open OmplModel.RngPlan in
+/-- The property's last sentence for *every* computation of this shape, from the *global* seed: two processes whose
+clocks read `c₁` and `c₂`, both calling `RNG::setSeed(s)` first (any `s`, 0 included), the same kind of termination
+condition, and validity callbacks that agree on the states the first run evaluates, produce the same result and end in
+the same environment state (every generator's state, counters, transcript hash, transcript). -/
+theorem planner_reproducible_from_global_seed {R : Type} (c : Comp Q A R) (c₁ c₂ s : UInt64) (it tr : Bool)
+    (orc₁ orc₂ : Vec → Bool)
+    (H : ∀ x ∈ evalPointsS (askedS (envStep orc₁) c (envInit c₁ s it tr)), orc₁ x = orc₂ x) :
+    runS (envStep orc₁) c (envInit c₁ s it tr) = runS (envStep orc₂) c (envInit c₂ s it tr) := by
+  rw [envInit_clock_free c₂ c₁ s it tr]
+  apply runS_congr
+  intro p hp
+  obtain ⟨e, q⟩ := p
+  apply envStep_orc_congr
+  intro x hx
+  subst hx
+  exact H x (mem_evalPointsS hp)
+
+-- non-vacuity: a computation whose result depends on the seed it is handed and on the callback
+open OmplModel.RngPlan in
+example :
+    let c : Comp Q A Nat := .ask .alloc fun a => .ask (.eval #[]) fun b =>
+      .done (match a, b with | .handle _ s, .val true => s.toNat | _, _ => 0)
+    (runS (envStep fun _ => true) c (envInit 5 1 false false)).1 = 523834656 ∧
+      (runS (envStep fun _ => true) c (envInit 5 42 false false)).1 = 207452777 ∧
+      (runS (envStep fun _ => false) c (envInit 5 1 false false)).1 = 0 := by
+  decide
+
+open OmplModel.RngPlan in
+/-- … and for the planner that is run in lock-step: `geometric::RRT` as modelled (`program`), on every problem, box
+environment, budget, `solve`/`clear` history, seed and kind of termination condition: the reports of all `solve`s
+(status, approximate flag, difference, path), the tree, the local seeds of the planner's and the sampler's generators and
+the final environment (counters, transcript hash) do not depend on the clock. -/
+theorem rrt_reproducible (P : Problem) (boxes : List (Vec × Vec)) (budget : Nat) (hist : List Phase)
+    (c₁ c₂ s : UInt64) (it tr : Bool) :
+    runS (envStep (boxOracle P boxes)) (program P budget hist) (envInit c₁ s it tr) =
+      runS (envStep (boxOracle P boxes)) (program P budget hist) (envInit c₂ s it tr) :=
+  planner_reproducible_from_global_seed _ c₁ c₂ s it tr _ _ (fun _ _ => rfl)
+
+open OmplModel.RngPlan in
+/-- "The i-th generator created depends only on the seed and on i" — inside a running planner: for *every* sequence of
+questions (draws on any generator, evaluations, polls, re-armed conditions interleaved in any way) the local seeds
+handed to its `alloc` questions are the first seeds of the global sequence of `s`, the `i`-th of them is `ithSeed s i`,
+and neither the clock nor the callback has any influence. -/
+theorem created_generators_any_interleaving (orc : Vec → Bool) (c s : UInt64) (it tr : Bool) (qs : List Q) :
+    allocSeeds (answers orc (envInit c s it tr) qs) = SeedGen.seeds (countAlloc qs) ((SeedGen.init 0).setSeed s).1 ∧
+      ∀ i, i < countAlloc qs → (allocSeeds (answers orc (envInit c s it tr) qs))[i]? = some (ithSeed s i) := by
+  have h := allocSeeds_eq orc (envInit c s it tr) qs ((SeedGen.init 0).setSeed s).1 (sgen_clock_free 0 c s)
+  refine ⟨h, fun i hi => ?_⟩
+  rw [h, seeds_getElem?_stable _ i _ hi]
+  unfold ithSeed
+  have hl : ∀ (n : Nat) (g : SeedGen), (SeedGen.seeds n g).length = n := by
+    intro n
+    induction n with
+    | zero => intro g; rfl
+    | succ n ih => intro g; simp [SeedGen.seeds, ih]
+  rw [List.getD_eq_getElem?_getD, List.getElem?_eq_getElem (by rw [hl]; omega)]
+  rfl
+
+-- non-vacuity: two generators created around other activity get the first two seeds of seed 1 (what the real planner's
+-- `rng_` and its sampler print as `getLocalSeed()` in a 2-D problem)
+open OmplModel.RngPlan in
+example :
+    allocSeeds (answers (fun _ => true) (envInit 77 1 false false) [.alloc, .poll, .eval #[], .alloc, .poll]) =
+      [some 523834656, some 303609453] := by
+  decide
+
+open OmplModel.RngPlan in
+/-- `ompl::base::IterationTerminationCondition` as coded (`++timesCalled_; return timesCalled_ > maxCalls_;`, a fresh
+copy per `solve`): after it is armed with `maxCalls = m`, and whatever else happens in between, the first `m` polls
+answer *continue* and every later poll answers *stop* — the condition depends on the number of polls only. -/
+theorem iteration_condition_counts_polls (orc : Vec → Bool) (e : EnvSt) (he : e.iterKind = true) (m : Nat)
+    (qs : List Q) (hq : ∀ q ∈ qs, isArm q = false) :
+    pollAnswers (answers orc (envStep orc e (.arm m)).2 qs) =
+      (List.range (countPoll qs)).map fun j => decide (j + 1 > m) := by
+  have := iterPolls_eq orc (envStep orc e (.arm m)).2 m 0 (by simp [envStep, he]) qs hq
+  simpa using this
+
+open OmplModel.RngPlan in
+example :
+    pollAnswers (answers (fun _ => true) (envStep (fun _ => true) (envInit 0 1 true false) (.arm 2)).2
+      [.poll, .eval #[], .poll, .alloc, .poll, .poll]) = [false, false, true, true] := by
   decide
 
 /-! ## an unasked input: what an output state held before the call -/
